@@ -339,6 +339,12 @@ Definition types_body (v : svertex) : res (list row) := leaf (cols "VertexType" 
 Definition q_types (s : schema) : res (list row) := from_start s "VertexType" HNone types_body.
 (* the same under a static hint on `name` (the engine re-applies the filter to what the adapter returns) *)
 Definition q_types_hinted (s : schema) (h : name_hint) : res (list row) := from_start s "VertexType" h types_body.
+(* the engine applies the @filter on `name` itself to whatever the adapter returned *)
+Definition engine_filter (allowed : string -> bool) (rows : list row) : list row :=
+  filter (fun r => match r with Str n :: _ => allowed n | _ => false end) rows.
+(* { VertexType { name @filter(..) @output is_interface @output } }: adapter enumerates under hint h, engine filters *)
+Definition q_types_filtered (s : schema) (h : name_hint) (allowed : string -> bool) : res (list row) :=
+  do rows <- q_types_hinted s h; Ok (engine_filter allowed rows).
 (* { VertexType { name @output implements { name @output } } } *)
 Definition q_implements (s : schema) : res (list row) :=
   from_start s "VertexType" HNone (fun v =>
